@@ -144,7 +144,9 @@ Assemble ==
          strip  == ~merged /\ rest # <<>> /\ IsBlank(lines[rest[1]])
          body   == IF strip THEN Tail(rest) ELSE rest
          na     == ArgsOf(decl, first)
-     IN res' = IF Unmodelled(block) THEN [st |-> "outside"]
+     IN res' = IF Unmodelled(block)              \* the option values are outside the model; the partition is not
+               THEN [st |-> "outside", body |-> body, merged |-> merged, off |-> IF merged THEN 0 ELSE IF strip THEN off0 + 1 ELSE off0,
+                     argerr |-> (na = ArgErr)]
                ELSE IF na = ArgErr THEN [st |-> "markup"]
                ELSE [st |-> "ok", args |-> na,
                      opts |-> {opts[n] : n \in 1..Len(opts)},
